@@ -28,6 +28,7 @@ RULE = ('one evaluation = one seeded run: a single-client sequence of 10-120 Deq
         'file-backed values, maxlen in {None,0,1,3,5}, compared call by call (result, exception class, list(deque)) with '
         'collections.deque; or 2-3 concurrent appenders/poppers under the seeded scheduler checked for linearizability against a '
         'deque with the same maxlen; non-trivial = at least 5 calls / a context switch; distinct = SHA-256 of program or event log')
+RULE += ' ' + "Sequences on a Deque obtained from a FanoutCache / DjangoCache also contain the parent's own clear / expire / cull / evict / set / delete calls."
 ASSUMPTIONS = ['values compare by == as collections.deque does; NaN values are not used']
 PROBES = ('own_temporary_directory', 'lifecycle', 'maxlen_discard', 'from_fanout', 'from_django', 'parent_calls', 'lock_wait')
 TECHNIQUE = 'deterministic simulation (seeded file/temp names, simulated processes) + differential testing against collections.deque; seeded schedules + linearizability for concurrent use'
